@@ -1,15 +1,23 @@
 """C10  The canonical taxonomy is exactly the subtype order on canonical types.
 
-proof stage     coq/props/C10.v
-correspondence  Language.canon / subtypes / supertypes (direct and transitive) of the
-                implementation vs the Gallina model (expand_canon, lang_succ)
+proof stage     coq/props/C10.v (canon = closure, contains every allowed subtype of the
+                listed types, flags respected; links sound, mirrored, reach = strict
+                subtype; taxonomy triples = links, closure = order; vocabulary types;
+                the pinned Language.successors refuted by two machine-checked witnesses)
+correspondence  Language.canon / subtypes / supertypes (direct and transitive) /
+                add_taxonomy triples of the implementation vs the Gallina model
+                (expand_canon, lang_succ = Language.successors as repaired by
+                proposed_fixes/C10.diff, taxonomy, closure_of)
 oracle          the property itself on the implementation's observations:
-                canon contains every allowed subtype of each listed type and
-                respects the Top/Bottom flags; reachability through the direct
-                links = strict subtype (decided by Type.is_subtype, tied to the
-                declarative order by C01); links mirror; rdfs:subClassOf triples of
-                add_taxonomy() = links, closure = non-strict order; vocabulary
-                describes exactly the operators and canonical types
+                canon contains every allowed subtype of each listed type (enumerated
+                independently) and respects the Top/Bottom flags and is stable;
+                reachability through the direct links = strict subtype (decided by
+                Type.is_subtype, tied to the declarative order by C01); links mirror;
+                rdfs:subClassOf triples of add_taxonomy() = links, closure = non-strict
+                order; vocabulary describes exactly the operators and canonical types
+root cause      a failure whose link structure is exactly what the model of the pinned
+                algorithm (lang_succ_pinned) computes carries the signature SIG_PINNED;
+                anything else has no signature and always fails
 """
 from __future__ import annotations
 
